@@ -118,6 +118,7 @@ pub fn base(prop: &str, seed: u64, max_blocks: u64, max_peers: u64) -> Base {
             mutations: Vec::new(),
             lie_from: 0,
             lie_salt: 0,
+            lie_span: 0,
         });
     }
     let plan = Plan {
@@ -970,6 +971,13 @@ fn gen_c07(seed: u64) -> Plan {
             b.plan.peers[p].lie_from = b.rng.range(1, b.plan.initial_blocks);
             b.plan.peers[p].lie_salt = b.rng.next_u64() | 1;
             b.plan.peers[p].identity = 700 + p as u64;
+        }
+    }
+    // some deviating vectors differ at one or two check points only and agree with the truth
+    // again afterwards (decided without consuming the generator's stream)
+    for p in 0..np {
+        if b.plan.peers[p].lie_salt != 0 && mix(&[seed, p as u64, 0x5ba]) % 2 == 0 {
+            b.plan.peers[p].lie_span = 1 + mix(&[seed, p as u64, 0x5bb]) % 2;
         }
     }
     // In some plans the deviating peers collude (one made-up vector), come first and may even be
